@@ -3,6 +3,7 @@ import Gonuts.Lemmas.MintSeq
 import Gonuts.Props.C01
 import Gonuts.Lemmas.SwapCrash
 import Gonuts.Lemmas.MintCrash
+import Gonuts.Lemmas.MeltPay
 /-!
   C07 — mint crash consistency.
 
@@ -162,6 +163,23 @@ theorem melt_table : (List.range 11).map (fun n => ((killed meltPre 1 n).s.w.db.
     [([], [], ["UNPAID"], []), ([], [], ["UNPAID"], []), ([], [], ["UNPAID"], []), ([], [], ["UNPAID"], []),
      ([7], [], ["UNPAID"], []), ([7], [], ["PENDING"], []), ([7], [], ["PENDING"], []), ([7], [], ["PENDING"], ["succ"]),
      ([], [], ["PENDING"], ["succ"]), ([], [7], ["PENDING"], ["succ"]), ([], [7], ["PAID"], ["succ"])] := by decide
+
+/-- Safety of melt at every interruption point BEFORE the payment: whenever `MeltTokens` is about to ask the backend to
+    pay (any request, world, number of calls made, armed fault), the inputs are in the pending table under the quote, the
+    quote is PENDING and nothing else has been written (`C05.payment_only_with_inputs_locked`); so a kill at or before the
+    payment call can strand locked inputs (the known points of `melt_table`) but never lets money move for inputs that are
+    not locked. -/
+theorem melt_pays_only_with_inputs_locked (cx : Cx) (qid : Int) (ps : List Proof) (n : Nat) (w w' : World) (β : Type) (e : Eff β)
+    (hn : (meltTokens cx qid ps).run.nextN n w = some (w', ⟨β, e⟩)) (hp : isPayEff e = true) :
+    ∃ id t, insertRows w.db.pending (pendRows (ps.map Proof.row) id) = some t ∧
+      w'.db = { w.db with pending := t, meltQ := updMeltQ w.db.meltQ id 0 .pending } :=
+  melt_pays_only_when_locked cx qid ps n w w' β e hn hp
+
+/-- non-vacuity: in the canonical melt the 7th call is the payment, and at that moment input 7 is locked and the quote PENDING -/
+def meltSess : Sess := (runCEvts (initC 0 false {}) [.seq (.extInvoice 0 8000), .seq (.meltQuote (.inv 0) true none), .script [.succ]]).s
+example : ((meltTokens (cxOf meltSess) 0 [k0]).run.nextN 6 meltSess.w).map
+      (fun r => (isPayEff r.2.2, r.1.db.pending.map (·.y), r.1.db.meltQ.map (·.state.str)))
+    = some (true, [7], ["PENDING"]) := by decide
 
 /-- rotation, killed after n = 0..3 calls: (keysets with their active flag, does the mint start). -/
 theorem rotate_table : (List.range 4).map (fun n => ((killed rotPre 1 n).s.w.db.keysets.map (fun k => (k.idx, k.active)), loadOk (killed rotPre 1 n).s.w.db)) =
